@@ -109,7 +109,7 @@ Definition run_ro (x : sx) : sx :=
 
 (* ---------- leg conc: simultaneous lookups right after a read-only cache was started ----------
    case   = ( wrap cap ( (path size mtime cid) ... ) ( (get k) | (ppget k) ... ) ( thread-number ... ) scan ballast )
-            (the schedule is completed by scan+3 round-robin rounds; [ballast] only slows the real scan down)
+            (the schedule is completed by 2*scan+2*threads+4 round-robin rounds, enough for every thread to finish; [ballast] only slows the real scan down)
    result = ( (answer per thread) (answers of the same lookups repeated one after the other) listing-unchanged ) *)
 
 Definition dec_lookup (x : sx) : option op :=
@@ -149,7 +149,7 @@ Definition run_conc (x : sx) : sx :=
           let d0 := initial false (get_bool w) (get_N c) 17 (map dec_file files) in
           let n := List.length ops in
           let sc := N.to_nat (get_N scan) in
-          let cs := crun ops sc (cstart d0 n) (map (fun t => N.to_nat (get_N t)) sched ++ rounds n (sc + 3)) in
+          let cs := crun ops sc (cstart d0 n) (map (fun t => N.to_nat (get_N t)) sched ++ rounds n (2 * sc + 2 * n + 4)) in
           let burst := map (fun i => match result_of cs i with Some r => enc_out r | None => sym "pending" end) (seq 0 n) in
           let '(again, d2) := seq_answers (cdc cs) ops in
           SL [ SL burst; SL (map enc_out again);
